@@ -99,6 +99,9 @@ pub struct Scenario {
     /// read the thread's memo view after each memo-using op (coverage measure)
     pub probe: bool,
     pub mode: String,
+    /// mixed into the schedule PRNG; the minimiser varies it to re-search schedules
+    #[serde(default)]
+    pub sched_salt: u64,
 }
 
 impl Scenario {
@@ -130,6 +133,10 @@ pub struct GenCtx<'a> {
     pub poison_by_group: Vec<Vec<u32>>,
     pub cheap: Vec<u32>,
     pub kinds: Vec<&'static str>,
+    /// usable pool indices per op kind (same order as `kinds`)
+    pub by_kind: Vec<Vec<u32>>,
+    /// per kind: ops whose cold run took < 120 us (candidates for medium-haul repetition)
+    pub quick_by_kind: Vec<Vec<u32>>,
 }
 
 impl<'a> GenCtx<'a> {
@@ -139,6 +146,8 @@ impl<'a> GenCtx<'a> {
         let mut poison_by_group = vec![Vec::new(); 13];
         let mut cheap = Vec::new();
         let mut kinds: Vec<&'static str> = Vec::new();
+        let mut by_kind: Vec<Vec<u32>> = Vec::new();
+        let mut quick_by_kind: Vec<Vec<u32>> = Vec::new();
         for (i, p) in pool.ops.iter().enumerate() {
             if refs[i].status != "ok" || refs[i].outcome.is_none() {
                 continue;
@@ -153,11 +162,21 @@ impl<'a> GenCtx<'a> {
             if p.cheap {
                 cheap.push(i as u32);
             }
-            if !kinds.contains(&p.op.kind()) {
-                kinds.push(p.op.kind());
+            let k = match kinds.iter().position(|x| *x == p.op.kind()) {
+                Some(k) => k,
+                None => {
+                    kinds.push(p.op.kind());
+                    by_kind.push(Vec::new());
+                    quick_by_kind.push(Vec::new());
+                    kinds.len() - 1
+                }
+            };
+            by_kind[k].push(i as u32);
+            if refs[i].us < 120 {
+                quick_by_kind[k].push(i as u32);
             }
         }
-        GenCtx { pool, refs, usable, by_group, poison_by_group, cheap, kinds }
+        GenCtx { pool, refs, usable, by_group, poison_by_group, cheap, kinds, by_kind, quick_by_kind }
     }
 }
 
@@ -190,6 +209,7 @@ pub fn generate(g: &GenCtx, seed: u64) -> Scenario {
         n_crs: 2,
         probe: true,
         mode: "normal".into(),
+        sched_salt: 0,
     };
     // ---- swarm configuration
     let n_threads = 1 + weighted(&mut rng, &[15, 30, 25, 15, 8, 7]);
@@ -222,8 +242,15 @@ pub fn generate(g: &GenCtx, seed: u64) -> Scenario {
     let mut guard = 0;
     while sub.len() < sub_size && guard < 2000 {
         guard += 1;
-        let from_group = rng.pct(70);
-        let src: &Vec<u32> = if from_group { &g.by_group[*rng.pick(&groups)] } else { &g.usable };
+        let how = rng.below(100);
+        let src: &Vec<u32> = if how < 65 {
+            &g.by_group[*rng.pick(&groups)]
+        } else if how < 85 {
+            // kind-balanced: rare op kinds get the same weight as common ones
+            &g.by_kind[rng.below(g.by_kind.len() as u64) as usize]
+        } else {
+            &g.usable
+        };
         if src.is_empty() {
             continue;
         }
@@ -302,11 +329,42 @@ pub fn generate(g: &GenCtx, seed: u64) -> Scenario {
         };
         sc.threads.push(ThreadPlan { start, hash_key: rng.next_u64(), steps });
     }
+    // medium-haul: one op of a uniformly chosen kind repeated 30..3000 times (process- or
+    // thread-wide call-count thresholds, caches that fill up)
+    if rng.pct(12) {
+        let k = rng.below(g.quick_by_kind.len() as u64) as usize;
+        if !g.quick_by_kind[k].is_empty() {
+            let ix = *rng.pick(&g.quick_by_kind[k]);
+            if g.pool.ops[ix as usize].poison.is_none() || poison_on {
+                let op = intern(&mut sc, ix);
+                let t = rng.below(sc.threads.len() as u64) as usize;
+                let at = rng.below(sc.threads[t].steps.len() as u64 + 1) as usize;
+                // log-uniform in [30, 3000]
+                let repeat = (30.0 * (100.0f64).powf(rng.unit())) as u32;
+                sc.threads[t].steps.insert(at, Step { op, repeat, rekey: None });
+                sc.mode = "medium_haul".into();
+            }
+        }
+    }
     if long_haul && !g.cheap.is_empty() {
         sc.mode = "long_haul".into();
         // one op repeated across the 10 000-call threshold of an instance, surrounded by others
         let crs_cheap: Vec<u32> = g.cheap.iter().copied().filter(|i| matches!(g.pool.ops[*i as usize].op, Op::CrsVertex { inst: Some(_), .. })).collect();
-        let ix = if !crs_cheap.is_empty() && rng.pct(70) { *rng.pick(&crs_cheap) } else { *rng.pick(&g.cheap) };
+        let ix = if !crs_cheap.is_empty() && rng.pct(60) {
+            *rng.pick(&crs_cheap)
+        } else {
+            // kind-balanced among the cheap ops
+            let mut pick = *rng.pick(&g.cheap);
+            for _ in 0..8 {
+                let k = rng.below(g.by_kind.len() as u64) as usize;
+                let c: Vec<u32> = g.by_kind[k].iter().copied().filter(|i| g.pool.ops[*i as usize].cheap).collect();
+                if !c.is_empty() {
+                    pick = *rng.pick(&c);
+                    break;
+                }
+            }
+            pick
+        };
         let op = intern(&mut sc, ix);
         let t = rng.below(sc.threads.len() as u64) as usize;
         let at = rng.below(sc.threads[t].steps.len() as u64 + 1) as usize;
